@@ -33,6 +33,24 @@ obeys the documented rule, every outside change under the target of a link that 
 left in the working directory — known finding C18-extract-through-staged-link, classifier
 `c18_extract_through_staged_link`).
 
+Round 3 additions:
+  * manifest keys as TEXT (`Model/C18Keys.lean`): alias spellings of one entry (`k`, `k/`, `./k`, `k//`, `k/.`, `k/./`),
+    a link entry followed by a copy entry onto the same entry, instance directories that already hold links, and
+    HISTORIES of deployments into the same instance directory (deploy, change the manifest — link -> copy, other
+    spelling, other order — deploy again).  Oracle: nothing outside the instance directory changes over the whole
+    history; a manifest that copies onto a link leading outside is answered with an error
+    (`deploy-accepts-offending-manifest`).
+  * two components staging archives at the same time (`Model/C18Stagers.lean`): two real StageReference(...:extract)
+    calls in two threads under a deterministic cooperative scheduler (`Sched`) that switches threads only at the
+    hooked boundaries (os.chdir / os.fchdir / os.umask before+after, TarFile.extractall before+after, every
+    TarFile._extract_member); schedules: sequential, all two-preemption schedules up to a bound, alternating, random
+    (thorough: all interleavings of the grants a sequential run needs).  Oracle: nothing changes outside the two
+    working directories, each working directory ends exactly as after staging its own archive alone, the process
+    cwd is what it was (`concurrent-extract-writes-outside-own-working-directory`,
+    `concurrent-extract-misses-own-members`, `staging-changes-process-cwd`).
+  * a sample of the cases is run again at the end, in another order (`result-depends-on-earlier-cases`); a third of
+    the cases run with the process cwd inside the sandbox.
+
 Families the extract generator covers (tags `class:…`, `family:…` in the evidence): benign, 11 single-idea
 escape templates, random mixes, and link chains (`gen_chain`): links placed through earlier links, hard links to
 earlier links, targets through earlier links — the archives on which a check that judges every member on its
@@ -49,13 +67,19 @@ import os
 import shutil
 import tarfile
 import tempfile
+import threading
+import time
 import warnings
+import itertools
+import json
 
 from harness import common
 
 PAD = "p1/p2/p3/p4/p5/p6/p7/p8/R"
 WD = "instance/stages/stage0/comp"
 INST = "inst/new.instance"
+WD2 = "instance/stages/stage0/other"        # working directory of a second component staging at the same time
+CWD = "cwd"                                 # neutral process cwd inside the sandbox
 PRODUCER = "instance/stages/stage0/producer"
 NAMES = ["a", "b", "c", "d", "keep.txt", "sub", "x.txt", "l"]
 # siblings whose name has the target's name as a proper prefix (and one that is a proper prefix of it)
@@ -114,7 +138,7 @@ class Sandbox:
         if os.path.lexists(os.path.join(self.base, "p1")):
             shutil.rmtree(os.path.join(self.base, "p1"))
         r = self.root
-        for d in ("outside/dir", "instance/data/d1", PRODUCER, WD, "pkg/src1", "pkg/src2", INST):
+        for d in ("outside/dir", "instance/data/d1", PRODUCER, WD, WD2, CWD, "pkg/src1", "pkg/src2", INST):
             os.makedirs(os.path.join(r, d))
         for d in WD_SIBLINGS + INST_SIBLINGS:
             os.makedirs(os.path.join(r, d, "sub"))
@@ -194,13 +218,13 @@ def changed_outside(before, after, inside_rel):
     return bad
 
 
-def make_tar(path, members, sb):
+def make_tar(path, members, sb, stamp=b"from-archive"):
     with tarfile.open(path, "w") as t:
         for kind, name, tgt in members:
             ti = tarfile.TarInfo(sb.real(name))
             ti.mtime = 1000000000
             if kind == "file":
-                data = b"from-archive"
+                data = stamp
                 ti.size = len(data)
                 t.addfile(ti, io.BytesIO(data))
             elif kind == "dir":
@@ -250,6 +274,10 @@ def impl_stage(sb, case):
     else:
         ref = case["ref"]
     before = sb.snapshot()
+    cwd0 = os.getcwd()
+    if case.get("cwd"):
+        os.chdir(os.path.join(r, CWD))          # ambient setting: the process cwd is somewhere inside the sandbox
+    cwd1 = os.getcwd()
     try:
         dref = M["G"].DataReference(ref)
         loc = M["ST"].WorkingDirectory(os.path.join(r, WD))
@@ -257,6 +285,12 @@ def impl_stage(sb, case):
         res = "ok"
     except Exception as exc:  # noqa
         res = classify_stage_exc(exc)
+    finally:
+        try:
+            sb.cwd_moved = None if os.getcwd() == cwd1 else sb.canon(os.getcwd())
+        except OSError:
+            sb.cwd_moved = "<removed>"
+        os.chdir(cwd0)
     after = sb.snapshot()
     return res, before, after
 
@@ -276,29 +310,44 @@ def classify_deploy_exc(exc):
     return "other:" + type(exc).__name__
 
 
+def deploy_steps(case):
+    """the deployments of a case, oldest first: the earlier ones of its history, then the case's own manifest"""
+    return [{"entries": h["entries"], "validate": h["validate"]} for h in case.get("history", ())] + \
+           [{"entries": case["entries"], "validate": case["validate"]}]
+
+
 def impl_deploy(sb, case):
+    """all deployments of the case (its history, then its own manifest) by the real code into the same instance
+    directory; returns (answer of the last one, listing before the first, listing after the last); the answers of
+    all of them are left in sb.results"""
     M = _imports()
     ST = M["ST"]
-    sb.reset(())
+    sb.reset(case.get("pre", ()))
     r = sb.root
     yml = os.path.join(r, "pkg/wf.yaml")
-    manifest = {sb.real(k): sb.real(v) for k, v in case["entries"]}
     before = sb.snapshot()
     cwd = os.getcwd()
+    if case.get("cwd"):
+        os.chdir(os.path.join(r, CWD))
+    results = []
     try:
-        if case["validate"]:
-            pkg = ST.ExperimentPackage.packageFromLocation(yml, manifest=dict(manifest))
-        else:
-            base = ST.ExperimentPackage.packageFromLocation(yml, manifest=None)
-            pkg = ST.ExperimentPackage(base.configuration, dict(manifest))
-        pkg.expandPackageToDirectory(os.path.join(r, INST))
-        res = "ok"
-    except Exception as exc:  # noqa
-        res = classify_deploy_exc(exc)
+        for step in deploy_steps(case):
+            manifest = {sb.real(k): sb.real(v) for k, v in step["entries"]}
+            try:
+                if step["validate"]:
+                    pkg = ST.ExperimentPackage.packageFromLocation(yml, manifest=dict(manifest))
+                else:
+                    base = ST.ExperimentPackage.packageFromLocation(yml, manifest=None)
+                    pkg = ST.ExperimentPackage(base.configuration, dict(manifest))
+                pkg.expandPackageToDirectory(os.path.join(r, INST))
+                results.append("ok")
+            except Exception as exc:  # noqa
+                results.append(classify_deploy_exc(exc))
     finally:
         os.chdir(cwd)
+    sb.results = results
     after = sb.snapshot()
-    return res, before, after
+    return results[-1], before, after
 
 
 # ----------------------------------------------------------------------------------------
@@ -310,17 +359,19 @@ def model_request(case, fs, fixed=True):
         return {"op": "extract", "fixed": fixed, "dest": "/S/" + WD, "fs": fs,
                 "members": [[k, n.replace("$R", "/S"), t.replace("$R", "/S")] for k, n, t in case["members"]]}
     if case["op"] == "deploy":
-        ents = []
-        for k, v in case["entries"]:
-            src, _, meth = v.rpartition(":")
-            if meth not in ("copy", "link") or not src:
-                src, meth = v, "copy"
-            src = src.replace("$R", "/S")
-            if not src.startswith("/"):
-                src = "/S/pkg/" + src
-            ents.append([k.replace("$R", "/S"), src, meth])
-        return {"op": "deploy", "fixed": fixed, "validate": case["validate"], "target": "/S/" + INST, "fs": fs,
-                "entries": ents, "confIsKey": any(k == "conf" for k, _ in case["entries"])}
+        steps = []
+        for step in deploy_steps(case):
+            ents = []
+            for k, v in step["entries"]:
+                src, _, meth = v.rpartition(":")
+                if meth not in ("copy", "link") or not src:
+                    src, meth = v, "copy"
+                src = src.replace("$R", "/S")
+                if not src.startswith("/"):
+                    src = "/S/pkg/" + src
+                ents.append([k.replace("$R", "/S"), src, meth])       # the key goes to the model as TEXT
+            steps.append({"entries": ents, "validate": step["validate"]})
+        return {"op": "deploy", "fixed": fixed, "target": "/S/" + INST, "fs": fs, "steps": steps}
     ref, _, meth = case["ref"].rpartition(":")
     # the reference text the modelled branch receives is what the real DataReference resolves to
     M = _imports()
@@ -332,7 +383,7 @@ def model_request(case, fs, fixed=True):
 
 def initial_fs(sb, case):
     if case["op"] == "deploy":
-        sb.reset(())
+        sb.reset(case.get("pre", ()))
     else:
         prepare(sb, case)
     if case["op"] == "extract":
@@ -397,7 +448,7 @@ def gen_hostile(rng):
     t = rng.choice(["parent", "parent-mid", "abs-dest-parent", "sym-file", "sym-chain", "sym-abs", "hard-victim",
                     "shallow-link", "sym-dir-attrs", "abs-outside", "sym-outside-only",
                     "abs-sibling", "abs-sibling", "parent-sibling", "sym-abs-sibling", "sym-rel-sibling",
-                    "hard-sibling", "abs-sibling-dir"])
+                    "hard-sibling", "abs-sibling-dir", "parent-other-wd", "abs-other-wd", "sym-other-wd"])
     sib = rng.choice(WD_SIBLINGS)                 # e.g. <working directory>-x
     sibname = sib.rsplit("/", 1)[1]
     esc = rng.choice(["escaped.txt", "e/escaped.txt", "outside/new.txt"])
@@ -435,9 +486,16 @@ def gen_hostile(rng):
         ms = [["sym", "l", "../" + sibname], ["file", "l/new.txt", ""]]
     elif t == "hard-sibling":
         ms = [["hard", "h", rng.choice(["../" + sibname, "$R/" + sib]) + "/keep.txt"], ["file", "h", ""]]
+    elif t == "parent-other-wd":
+        # aimed at the working directory of ANOTHER component of the same stage
+        ms = [["file", "../" + WD2.rsplit("/", 1)[1] + "/" + rng.choice(["evil", "sub/evil"]), ""]]
+    elif t == "abs-other-wd":
+        ms = [["file", "$R/" + WD2 + "/" + rng.choice(["evil", "sub/evil"]), ""]]
+    elif t == "sym-other-wd":
+        ms = [["sym", "l", rng.choice(["../" + WD2.rsplit("/", 1)[1], "$R/" + WD2])], ["file", "l/evil", ""]]
     else:
         ms = [["sym", "l", UP6 + "outside"]]
-    planted = t not in ("abs-outside", "sym-outside-only", "abs-sibling", "abs-sibling-dir")
+    planted = t not in ("abs-outside", "sym-outside-only", "abs-sibling", "abs-sibling-dir", "abs-other-wd")
     pre = gen_benign_members(rng, rng.randint(0, 3))
     post = gen_benign_members(rng, rng.randint(0, 2))
     # benign members must not shadow the planted names
@@ -742,7 +800,24 @@ def gen_key(rng):
         return "./" + "/".join(parts)
     elif r < 0.36 and len(parts) > 1:
         return "//".join(parts)
+    elif r < 0.46:
+        # other spellings of the same entry: trailing separator(s), a final `.` component, `.` in the middle
+        return respell(rng, "/".join(parts))
     return "/".join(parts)
+
+
+ALIAS_FORMS = ["{k}/", "./{k}", "{k}//", "{k}/.", ".//{k}", "{k}/./", "./{k}/", "././{k}", "{k}/./."]
+
+
+def respell(rng, key, same_ok=False):
+    """another text for the same entry of the instance directory"""
+    forms = ALIAS_FORMS + (["{k}"] if same_ok else [])
+    k = key
+    if "/" in k and rng.random() < 0.3:
+        k = k.replace("/", rng.choice(["//", "/./"]), 1)
+        if rng.random() < 0.5:
+            return k
+    return rng.choice(forms).format(k=k)
 
 
 def gen_source(rng, key_is_file_ok):
@@ -763,7 +838,79 @@ def gen_source(rng, key_is_file_ok):
     return src + meth
 
 
+OUTSIDE_SOURCES = ["$R/outside/dir", "$R/outside", "$R/pkg/src1", "src1", "../outside/dir", "$R/" + PRODUCER]
+
+
+def gen_alias_deploy_case(rng):
+    """one entry of the instance directory reached twice: by two spellings of its key in one manifest, by two
+    deployments into the same instance directory (the manifest changed in between), or because the instance
+    directory held it before the deployment.  `offending` = a copy entry is aimed at an entry that is, at that
+    moment, a link leading outside the instance directory: following the manifest would write outside, so the
+    deployment must be answered with an error."""
+    k0 = rng.choice(["shared", "a", "data", "x", "b", "shared"])
+    lead = []
+    if rng.random() < 0.2:
+        par = rng.choice(["p", "a"]) if k0 != "a" else "p"
+        lead = [[par, "src1:copy"]]
+        k0 = par + "/" + k0
+    out = rng.choice(OUTSIDE_SOURCES + ["$R/" + x for x in INST_SIBLINGS[:3]])
+    copy_src = rng.choice(["src2:copy", "src2", "$R/pkg/src2:copy", "src1:copy"])
+    benign = [[rng.choice(["k1", "k2", "deep/k3"]), rng.choice(["src1", "src2:copy", "src1:link"])]]
+    mode = rng.choice(["alias", "alias", "alias", "history", "history", "history3", "pre-link", "alias-link-onto-copy",
+                       "alias-copy-copy", "inside", "history-benign"])
+    case = {"op": "deploy", "validate": rng.random() < 0.6}
+    offending = False
+    if mode == "alias":
+        ents = lead + [[k0, out + ":link"], [respell(rng, k0), copy_src]]
+        if rng.random() < 0.4:
+            ents.insert(rng.randint(len(lead), len(ents)), benign[0])
+        offending = True
+    elif mode == "alias-link-onto-copy":
+        ents = lead + [[k0, copy_src], [respell(rng, k0), out + ":link"]]
+    elif mode == "alias-copy-copy":
+        ents = lead + [[k0, "src1:copy"], [respell(rng, k0), "src2:copy"]]
+    elif mode == "inside":
+        # near miss: the link leads to a directory of the instance itself
+        ents = [["in", "src1:copy"], [k0.split("/")[-1], "$R/" + INST + "/in:link"], [respell(rng, k0.split("/")[-1]), copy_src]]
+    elif mode == "pre-link":
+        # the instance directory holds the entry already, as a link to somewhere else
+        tgt = out if out.startswith("$R/") else "$R/outside/dir"
+        case["pre"] = [["link", INST + "/" + k0.split("/")[-1], tgt]]
+        ents = [[respell(rng, k0.split("/")[-1], same_ok=True), copy_src]]
+        if rng.random() < 0.4:
+            ents.append(benign[0])
+        offending = True
+    else:
+        # histories: the same instance directory is deployed into again after the manifest changed
+        conf = [["conf", "src1:copy"]] if rng.random() < 0.6 else []
+        first = conf + lead + [[k0, out + ":link"]] + (benign if rng.random() < 0.5 else [])
+        if mode == "history-benign":
+            # second deployment brings only new keys (and runs into the existing conf)
+            second = [[rng.choice(["n1", "n2/x"]), rng.choice(["src1", "src2:link"])]] + (conf if rng.random() < 0.5 else [])
+        else:
+            changed = [respell(rng, k0, same_ok=True), copy_src]
+            rest = conf + (benign if rng.random() < 0.3 else [])
+            second = [changed] + rest if rng.random() < 0.6 else rest + [changed]
+            if rng.random() < 0.3:
+                rng.shuffle(second)
+            offending = True
+        case["history"] = [{"entries": first, "validate": rng.random() < 0.6}]
+        ents = second
+        if mode == "history3":
+            case["history"].append({"entries": second, "validate": rng.random() < 0.6})
+            ents = [[k0 + "/" + rng.choice(["sub", "sub/deeper"]), copy_src]] if rng.random() < 0.5 else \
+                [[respell(rng, k0, same_ok=True), copy_src]]
+    case["entries"] = ents
+    case["class"] = "alias:" + mode
+    if offending:
+        case["offending"] = True
+    return case
+
+
 def gen_deploy_case(rng):
+    r = rng.random()
+    if r < 0.22:
+        return gen_alias_deploy_case(rng)
     r = rng.random()
     if r < 0.25:
         # templates of the known escapes + near misses
@@ -857,11 +1004,437 @@ CORPUS = [
      "entries": [["conf", "$R/" + INST + ".bak:link"]], "validate": True},
     {"op": "deploy", "class": "corpus:nested under a link into the instance",
      "entries": [["a", "src1:copy"], ["b", "$R/" + INST + "/a:link"], ["b/c", "src2:copy"]], "validate": True},
+    {"op": "deploy", "class": "corpus:copy entry onto a linked entry, key with trailing separator",
+     "entries": [["shared", "$R/outside/dir:link"], ["shared/", "src2:copy"]], "validate": True, "offending": True},
+    {"op": "deploy", "class": "corpus:copy entry onto a linked entry, key ./shared",
+     "entries": [["shared", "$R/outside/dir:link"], ["./shared", "src2:copy"]], "validate": False, "offending": True},
+    {"op": "deploy", "class": "corpus:copy entry onto a linked entry, key shared/.",
+     "entries": [["shared", "$R/outside/dir:link"], ["shared/.", "src2:copy"]], "validate": True, "offending": True},
+    {"op": "deploy", "class": "corpus:second deployment after link -> copy",
+     "history": [{"entries": [["conf", "src1:copy"], ["shared", "$R/outside/dir:link"]], "validate": True}],
+     "entries": [["shared", "src2:copy"], ["conf", "src1:copy"]], "validate": True, "offending": True},
+    {"op": "deploy", "class": "corpus:second deployment after link -> copy, conf first",
+     "history": [{"entries": [["conf", "src1:copy"], ["shared", "$R/outside/dir:link"]], "validate": True}],
+     "entries": [["conf", "src1:copy"], ["shared", "src2:copy"]], "validate": True, "offending": True},
+    {"op": "deploy", "class": "corpus:instance directory holds the entry as a link",
+     "pre": [["link", INST + "/shared", "$R/outside/dir"]],
+     "entries": [["shared", "src2:copy"]], "validate": True, "offending": True},
+    {"op": "deploy", "class": "corpus:spellings of a missing entry",
+     "entries": [["a/", "src1:copy"], ["b/.", "src2"], ["./c", "src1:link"], ["d/", "src1:link"], ["e", "src2"]], "validate": True},
+    {"op": "concurrent", "class": "concurrent:corpus two preemptions", "schedule_kind": "two-preemptions",
+     "schedule": [0, 0, 1, 1, 1],
+     "stagers": [{"members": [["file", "a.txt", ""], ["file", "a-sub/a-nested.txt", ""]], "pre": []},
+                 {"members": [["file", "b.txt", ""], ["file", "b-sub/b-nested.txt", ""]], "pre": []}]},
     {"op": "extract", "class": "corpus:absolute member under a prefix-named sibling",
      "members": [["file", "$R/" + WD + "-x/evil", ""]], "planted": False, "pre": []},
     {"op": "extract", "class": "corpus:link to a prefix-named sibling",
      "members": [["sym", "l", "$R/" + WD + "x"], ["file", "l/evil", ""]], "planted": True, "pre": []},
 ]
+
+
+# ----------------------------------------------------------------------------------------
+# two components staging at the same time
+# ----------------------------------------------------------------------------------------
+
+class SchedError(Exception):
+    pass
+
+
+class Sched:
+    """Deterministic cooperative scheduler for the stagers (one thread each).  A stager parks at every hooked
+    boundary (`point`); one grant = run from the current park to the next one.  The plan is a list of stager ids;
+    naming a finished stager does nothing; after the plan the unfinished stagers run on in id order.  Exactly one
+    stager runs at a time, unless the code under test makes a stager WAIT for another one (a lock): a granted
+    stager that does not reach a boundary within `block_timeout` is left in flight and the plan goes on."""
+
+    SEEN_WAITING = [0]          # stagers found waiting for each other so far in this process
+
+    def __init__(self, fns, plan, block_timeout=None, deadline=60.0):
+        if block_timeout is None:
+            # once the code under test has been seen to serialise stagers (a lock), do not wait long to find out again
+            block_timeout = 0.5 if Sched.SEEN_WAITING[0] < 3 else 0.05
+        self.fns = list(fns)
+        self.plan = list(plan)
+        self.n = len(self.fns)
+        self.go = [threading.Event() for _ in self.fns]
+        self.arrived = [threading.Event() for _ in self.fns]
+        self.state = ["parked"] * self.n           # parked | running | done
+        self.results = [None] * self.n
+        self.errors = [None] * self.n
+        self.tid = {}
+        self.free = False
+        self.block_timeout = block_timeout
+        self.deadline = deadline
+        self.granted = []                          # stager ids in the order of the grants
+        self.trace = []                            # (stager, boundary label) in the order the boundaries were passed
+        self.members = []                          # stager ids in the order the archive members were extracted
+        self.blocked = 0
+        self.progress = 0                          # boundaries reached / stagers finished so far
+        self.stuck_at = [None] * self.n            # value of `progress` when the stager was last found waiting
+        self.threads = []
+
+    def wid(self):
+        return self.tid.get(threading.get_ident())
+
+    # worker side
+    def point(self, label):
+        w = self.wid()
+        if w is None or self.free:
+            return
+        self.state[w] = "parked"
+        self.progress += 1
+        self.arrived[w].set()
+        if not self.go[w].wait(self.deadline):
+            raise SchedError("stager %d was never resumed" % w)
+        self.go[w].clear()
+        self.trace.append((w, label))
+        if label == "member":
+            self.members.append(w)
+
+    def _body(self, w):
+        self.tid[threading.get_ident()] = w
+        self.go[w].wait(self.deadline)
+        self.go[w].clear()
+        try:
+            self.results[w] = self.fns[w]()
+        except BaseException as exc:  # noqa
+            self.errors[w] = exc
+        finally:
+            self.state[w] = "done"
+            self.progress += 1
+            self.arrived[w].set()
+
+    # controller side
+    def grant(self, w):
+        if self.state[w] == "done":
+            return
+        if self.state[w] == "parked":
+            self.arrived[w].clear()
+            self.state[w] = "running"
+            self.granted.append(w)
+            self.go[w].set()
+        elif self.stuck_at[w] == self.progress:
+            self.blocked += 1                      # still waiting and nobody else has moved since
+            return
+        if not self.arrived[w].wait(self.block_timeout):
+            self.blocked += 1                      # waits for another stager: leave it in flight
+            self.stuck_at[w] = self.progress
+            Sched.SEEN_WAITING[0] += 1
+
+    def run(self):
+        t0 = time.time()
+        for w in range(self.n):
+            th = threading.Thread(target=self._body, args=(w,), name="c18-stager-%d" % w, daemon=True)
+            self.threads.append(th)
+            th.start()
+        try:
+            for w in self.plan:
+                if 0 <= w < self.n:
+                    self.grant(w)
+            while any(st != "done" for st in self.state):
+                for w in range(self.n):
+                    while self.state[w] != "done":
+                        if time.time() - t0 > self.deadline:
+                            raise SchedError("stagers did not finish: %r" % (self.state,))
+                        b = self.blocked
+                        self.grant(w)
+                        if self.blocked > b:
+                            break                  # waits for another stager: let the next one run
+        finally:
+            self.free = True
+            for w in range(self.n):
+                self.go[w].set()
+            for th in self.threads:
+                th.join(self.deadline)
+
+
+_SCHED = [None]
+
+
+def _pt(label):
+    sc = _SCHED[0]
+    if sc is not None:
+        sc.point(label)
+
+
+class Hooks:
+    """the boundaries at which the scheduler may switch stagers: process-global state (cwd, umask) before and after
+    it is changed, archive extraction before/after and before every member"""
+
+    def __enter__(self):
+        self.saved = []
+
+        def around(obj, name):
+            orig = getattr(obj, name, None)
+            if orig is None:
+                return
+
+            def wrapper(*a, **k):
+                _pt(name + ":before")
+                try:
+                    return orig(*a, **k)
+                finally:
+                    _pt(name + ":after")
+            wrapper.__name__ = name
+            self.saved.append((obj, name, orig))
+            setattr(obj, name, wrapper)
+
+        for name in ("chdir", "fchdir", "umask"):
+            around(os, name)
+        around(tarfile.TarFile, "extractall")
+        orig_member = getattr(tarfile.TarFile, "_extract_member", None)
+        if orig_member is not None:
+            def _extract_member(self_, *a, **k):
+                _pt("member")
+                return orig_member(self_, *a, **k)
+            self.saved.append((tarfile.TarFile, "_extract_member", orig_member))
+            tarfile.TarFile._extract_member = _extract_member
+        return self
+
+    def __exit__(self, *exc):
+        for obj, name, orig in reversed(self.saved):
+            setattr(obj, name, orig)
+        return False
+
+
+CONC_WDS = [WD, WD2]
+
+
+def retarget(members, wd):
+    """members written for the first working directory, for another one"""
+    return [[k, n.replace("$R/" + WD + "/", "$R/" + wd + "/"), t.replace("$R/" + WD + "/", "$R/" + wd + "/")]
+            for k, n, t in members]
+
+
+def conc_prepare(sb, case):
+    pre = []
+    for i, st in enumerate(case["stagers"]):
+        pre += [[k, rel.replace(WD + "/", CONC_WDS[i] + "/", 1) if rel.startswith(WD + "/") else rel, t]
+                for k, rel, t in st.get("pre", ())]
+    sb.reset(pre)
+    for i, st in enumerate(case["stagers"]):
+        make_tar(os.path.join(sb.root, "instance/data/a%d.tar" % i), st["members"], sb,
+                 stamp=("from-archive-%d" % i).encode())
+
+
+def conc_stage_fn(sb, i):
+    M = _imports()
+
+    def fn():
+        try:
+            M["D"].StageReference(M["G"].DataReference("data/a%d.tar:extract" % i),
+                                  M["ST"].WorkingDirectory(os.path.join(sb.root, CONC_WDS[i])),
+                                  _Graph(os.path.join(sb.root, "instance")))
+            return "ok"
+        except Exception as exc:  # noqa
+            return classify_stage_exc(exc)
+    return fn
+
+
+def conc_run(sb, case, plan):
+    """the two stagings of the case in two threads under `plan` (None: one after the other in this thread, no
+    scheduler).  Returns dict(results, before, after, members, trace, blocked, cwd_after)."""
+    conc_prepare(sb, case)
+    before = sb.snapshot()
+    cwd0 = os.getcwd()
+    chdir = os.chdir
+    chdir(os.path.join(sb.root, CWD))
+    cwd1 = os.getcwd()
+    out = {"members": [], "trace": [], "blocked": 0}
+    try:
+        fns = [conc_stage_fn(sb, i) for i in range(len(case["stagers"]))]
+        if plan is None:
+            out["results"] = [fn() for fn in fns]
+        else:
+            sc = Sched(fns, plan)
+            with Hooks():
+                _SCHED[0] = sc
+                try:
+                    sc.run()
+                finally:
+                    _SCHED[0] = None
+            out["results"] = [sc.results[i] if sc.errors[i] is None else "other:" + type(sc.errors[i]).__name__
+                              for i in range(sc.n)]
+            out.update(members=list(sc.members), trace=[[w, l] for w, l in sc.trace], blocked=sc.blocked,
+                       grants=list(sc.granted))
+        try:
+            out["cwd_after"] = None if os.getcwd() == cwd1 else sb.canon(os.getcwd())
+        except OSError:
+            out["cwd_after"] = "<removed>"
+    finally:
+        chdir(cwd0)
+    out["before"] = before
+    out["after"] = sb.snapshot()
+    return out
+
+
+def under_rel(rel, d):
+    return rel == d or rel.startswith(d + "/")
+
+
+def conc_oracle(case, solo, run):
+    """model-independent restatement for two stagings at the same time: (1) nothing outside the two working
+    directories is created, removed or modified; (2) each working directory ends exactly as it does when its own
+    archive is staged alone — nothing of the other component's archive in it, nothing of its own missing;
+    (3) the process cwd is what it was.  Returns a list of (slug, detail)."""
+    fails = []
+    before, after = run["before"], run["after"]
+    n = len(case["stagers"])
+    outside = []
+    for rel in sorted(set(before) | set(after)):
+        if any(under_rel(rel, CONC_WDS[i]) for i in range(n)):
+            continue
+        if before.get(rel, (None,))[:4] != after.get(rel, (None,))[:4]:
+            outside.append([rel, list(before[rel][:4]) if rel in before else None,
+                            list(after[rel][:4]) if rel in after else None])
+    foreign, missing = [], []
+    for i in range(n):
+        d = CONC_WDS[i]
+        want = {r: v[:4] for r, v in solo["after"].items() if under_rel(r, d)}
+        got = {r: v[:4] for r, v in after.items() if under_rel(r, d)}
+        for r in sorted(set(want) | set(got)):
+            if want.get(r) == got.get(r):
+                continue
+            if r in got:
+                foreign.append([r, list(got[r]), list(want[r]) if r in want else None])
+            else:
+                missing.append([r, list(want[r])])
+    rejected_alone = [i for i in range(n) if solo["results"][i] == "rejected" and run["results"][i] != "rejected"]
+    if outside or foreign or rejected_alone:
+        fails.append(("concurrent-extract-writes-outside-own-working-directory",
+                      {"results": run["results"], "results_alone": solo["results"], "changed_outside_both": outside[:8],
+                       "not_from_own_archive": foreign[:8], "own_members_missing": missing[:8],
+                       "accepted_but_rejected_alone": rejected_alone, "boundaries": run["trace"][:60]}))
+    elif missing:
+        fails.append(("concurrent-extract-misses-own-members",
+                      {"results": run["results"], "results_alone": solo["results"], "own_members_missing": missing[:8],
+                       "boundaries": run["trace"][:60]}))
+    if run.get("cwd_after") is not None:
+        fails.append(("staging-changes-process-cwd", {"cwd_after": run["cwd_after"], "boundaries": run["trace"][:60]}))
+    return fails
+
+
+def conc_model_request(case, fs, members_order):
+    return {"op": "stagers", "fs": fs, "schedule": [int(w) for w in members_order],
+            "stagers": [{"dest": "/S/" + CONC_WDS[i],
+                         "members": [[k, n.replace("$R", "/S"), t.replace("$R", "/S")] for k, n, t in st["members"]]}
+                        for i, st in enumerate(case["stagers"])]}
+
+
+def conc_base_key(case):
+    return json.dumps(case["stagers"], sort_keys=True)
+
+
+def run_concurrent_cases(ctx, sb, cases):
+    solos = {}
+    reqs, pend = [], []
+    for case in cases:
+        key = conc_base_key(case)
+        if key not in solos:
+            solos[key] = conc_run(sb, case, None)
+        solo = solos[key]
+        run = conc_run(sb, case, case["schedule"])
+        tags = ["op:concurrent", "class:" + case["class"].split(" ")[0], "schedule:" + case.get("schedule_kind", "?")] + \
+               ["impl:" + r for r in run["results"]]
+        switches = sum(1 for a, b in zip(run["members"], run["members"][1:]) if a != b)
+        tags.append("member-switches:%s" % (switches if switches < 4 else "4+"))
+        if run["blocked"]:
+            tags.append("concurrent:stager-waited-for-the-other")
+        ctx.case(strip_case(case), nontrivial=all(r != "missing" for r in run["results"]) and len(run["trace"]) >= 2,
+                 tags=tags)
+        for slug, detail in conc_oracle(case, solo, run):
+            ctx.fail(slug, strip_case(case), detail)
+        conc_prepare(sb, case)
+        fs = fs_rows(sb, sb.snapshot())
+        reqs.append(conc_model_request(case, fs, run["members"]))
+        pend.append((case, run))
+    outs = ctx.model(reqs) if reqs else None
+    if outs is None:
+        return
+    for (case, run), m in zip(pend, outs):
+        if any(r in ("linkConflict", "linkMissing") for r in m["results"]):
+            ctx.tag("not-compared:tarfile-link-fallback")
+            continue
+        ctx.compare("(answers, tree under /S) of two interleaved stagings == Stagers model under the realised member order",
+                    strip_case(case), {"results": m["results"], "tree": m["tree"]},
+                    {"results": run["results"], "tree": tree_of(sb, run["after"])})
+        changed = sorted("/S/" + rel for rel in set(run["before"]) | set(run["after"])
+                         if run["before"].get(rel, (None,))[:4] != run["after"].get(rel, (None,))[:4]
+                         and not rel.startswith("instance/data/a"))
+        logs = set(m["logs"][0]) | set(m["logs"][1])
+        ctx.compare("changed entries ⊆ model logs of the two stagers", strip_case(case), {"unlogged": []},
+                    {"unlogged": [p for p in changed if p not in logs]})
+
+
+def conc_plans(rng, quick, grants, exhaustive=False):
+    """(kind, plan) list.  `grants` = grants per stager a sequential run needs."""
+    tail = []                  # after the plan the scheduler lets the first, then the second stager run to the end
+    plans = [("sequential-ab", []), ("sequential-ba", [1] * 40), ("alternating", [0, 1] * 25),
+             ("alternating-ba", [1, 0] * 25), ("alternating-2", [0, 0, 1, 1] * 12)]
+    n = 6 if quick else 8
+    for i in range(1, n + 1):
+        for j in range(1, n + 1):
+            plans.append(("two-preemptions", [0] * i + [1] * j + tail))
+            if (i + j) % 3 == 0:
+                plans.append(("two-preemptions-ba", [1] * i + [0] * j + [1] * 40))
+    for _ in range(6 if quick else 30):
+        plans.append(("random", [rng.randrange(2) for _ in range(40)]))
+    if exhaustive:
+        # every interleaving of the grants of a sequential run (bounded)
+        ga, gb = min(grants[0], 5), min(grants[1], 5)
+        for pos in itertools.combinations(range(ga + gb), ga):
+            plan = [1] * (ga + gb)
+            for q in pos:
+                plan[q] = 0
+            plans.append(("exhaustive", plan + tail))
+    return plans
+
+
+def gen_concurrent_bases(rng, quick):
+    """pairs of archives for two components of the same stage: same member names in both, different names, a
+    hostile archive next to a benign one, one aimed at the other's working directory, existing content"""
+    bases = []
+
+    def benign(n):
+        return [m for m in gen_benign_members(rng, n) if m[0] != "hard"][:n] or [["file", "x.txt", ""]]
+    same = [["file", "in.txt", ""], ["dir", "sub", ""], ["file", "sub/nested.txt", ""]]
+    bases.append(("same-names", [{"members": same, "pre": []}, {"members": [list(m) for m in same], "pre": []}]))
+    bases.append(("different-names", [{"members": [["file", "a.txt", ""], ["file", "a-sub/a-nested.txt", ""]], "pre": []},
+                                      {"members": [["file", "b.txt", ""], ["file", "b-sub/b-nested.txt", ""]], "pre": []}]))
+    t, hostile, _planted = gen_hostile(rng)
+    bases.append(("hostile+benign:" + t, [{"members": hostile, "pre": []}, {"members": benign(3), "pre": gen_pre(rng)}]))
+    other = WD2.rsplit("/", 1)[1]
+    bases.append(("aimed-at-the-other", [{"members": [["file", "ok.txt", ""], ["file", "../" + other + "/evil", ""]], "pre": []},
+                                         {"members": [["file", "ok.txt", ""], ["sym", "l", "sub"], ["file", "l/y", ""]],
+                                          "pre": [["dir", WD + "/sub", ""]]}]))
+    for _ in range(1 if quick else 6):
+        a, b = benign(rng.randint(1, 4)), benign(rng.randint(1, 4))
+        bases.append(("random-benign", [{"members": a, "pre": gen_pre(rng)}, {"members": retarget(b, WD2), "pre": gen_pre(rng)}]))
+    if not quick:
+        for _ in range(4):
+            t, hostile, _p = gen_hostile(rng)
+            bases.append(("benign+hostile:" + t, [{"members": benign(2), "pre": []}, {"members": retarget(hostile, WD2), "pre": []}]))
+    return bases
+
+
+def gen_concurrent_cases(rng, quick, sb):
+    cases = []
+    bases = gen_concurrent_bases(rng, quick)
+    for bi, (cls, stagers) in enumerate(bases):
+        base = {"op": "concurrent", "class": "concurrent:" + cls, "stagers": stagers}
+        # grants a sequential run needs: measured on the code under test
+        probe = conc_run(sb, base, [0] * 200)
+        grants = [sum(1 for w in probe.get("grants", []) if w == i) for i in range(2)]
+        plans = conc_plans(rng, quick, grants, exhaustive=(not quick and bi < 3))
+        if quick and bi >= 2:
+            # the full two-preemption family for the first two pairs, a sample for the others
+            plans = plans[:5] + rng.sample(plans[5:], 12)
+        for kind, plan in plans:
+            c = dict(base)
+            c["schedule"] = plan
+            c["schedule_kind"] = kind
+            cases.append(c)
+    return cases
 
 
 # ----------------------------------------------------------------------------------------
@@ -876,7 +1449,13 @@ def strip_case(case):
     return {k: v for k, v in case.items()}
 
 
-def run_cases(ctx, sb, cases):
+def run_cases(ctx, sb, cases, memo=None):
+    conc = [c for c in cases if c["op"] == "concurrent"]
+    cases = [c for c in cases if c["op"] != "concurrent"]
+    if conc:
+        run_concurrent_cases(ctx, sb, conc)
+    if not cases:
+        return
     # 1. initial listings + model answers (repaired model; committed-algorithm model as safety filter)
     fss = [initial_fs(sb, c) for c in cases]
     fixed = ctx.model([model_request(c, fs, True) for c, fs in zip(cases, fss)])
@@ -902,8 +1481,11 @@ def run_cases(ctx, sb, cases):
                     family.append("family:escapes-when-unchecked")
                 if through_link_members(case):
                     family.append("family:member-placed-through-link-member")
+        results = None
+        sb.cwd_moved = None
         if case["op"] == "deploy":
             res, before, after = impl_deploy(sb, case)
+            results = list(sb.results)
         else:
             res, before, after = impl_stage(sb, case)
         bad = changed_outside(before, after, inside_rel(case))
@@ -911,15 +1493,26 @@ def run_cases(ctx, sb, cases):
         tags = ["op:" + case["op"], "class:" + case["class"].split(" ")[0], "impl:" + res] + family
         if after != before:
             tags.append("effect:changed-something")
+        if case.get("history"):
+            tags.append("deploy:history-of-%d" % (len(case["history"]) + 1))
+        if case.get("cwd"):
+            tags.append("ambient:cwd-inside-sandbox")
         ctx.case(strip_case(case), nontrivial=nontrivial, tags=tags)
+        if memo is not None:
+            memo.append((case, {"result": res, "results": results, "tree": tree_of(sb, after)}))
         # oracle (model independent): nothing outside the target changes; planted escapes are rejected
         if bad:
             ctx.fail(escape_slug(case, bad), strip_case(case),
-                     {"result": res, "changed_outside": bad[:6], "outside_paths": [b[0] for b in bad[:80]],
-                      "outside_paths_truncated": len(bad) > 80})
+                     {"result": res, "results": results, "changed_outside": bad[:6],
+                      "outside_paths": [b[0] for b in bad[:80]], "outside_paths_truncated": len(bad) > 80})
         elif res.startswith("other:") and (case.get("planted") or case["op"] == "deploy"):
             ctx.fail(case["op"] + "-raises-" + res.split(":", 1)[1] + "-instead-of-staging-or-packaging-error",
                      strip_case(case), {"result": res})
+        elif case.get("offending") and res == "ok":
+            # a copy entry aimed at an entry that is a link leading outside: must be answered with an error
+            ctx.fail("deploy-accepts-offending-manifest", strip_case(case), {"result": res, "results": results})
+        if case["op"] != "deploy" and sb.cwd_moved is not None:
+            ctx.fail("staging-changes-process-cwd", strip_case(case), {"result": res, "cwd_after": sb.cwd_moved})
         if fixed is not None:
             m = fixed[i]
             ctx.tag("model:" + m["result"])
@@ -927,14 +1520,39 @@ def run_cases(ctx, sb, cases):
                 # tarfile's copy-instead-of-link fallback (not modelled): oracle only
                 ctx.tag("not-compared:tarfile-link-fallback")
                 continue
-            ctx.compare("(result, tree under /S) == Confine model (repaired)", strip_case(case),
-                        {"result": m["result"], "tree": m["tree"]},
-                        {"result": res, "tree": tree_of(sb, after)})
+            if case["op"] == "deploy":
+                ctx.compare("(answers of all deployments, tree under /S) == Confine model (repaired, keys as text)",
+                            strip_case(case), {"results": error_kinds(case, m["results"]), "tree": m["tree"]},
+                            {"results": error_kinds(case, results), "tree": tree_of(sb, after)})
+            else:
+                ctx.compare("(result, tree under /S) == Confine model (repaired)", strip_case(case),
+                            {"result": m["result"], "tree": m["tree"]},
+                            {"result": res, "tree": tree_of(sb, after)})
             # the model's log must cover what really changed (names created / content or link text modified)
             changed = sorted("/S/" + rel for rel in set(before) | set(after)
                              if before.get(rel, (None,))[:4] != after.get(rel, (None,))[:4])
             missing = [p for p in changed if p not in m["log"]]
             ctx.compare("changed entries ⊆ model log", strip_case(case), {"unlogged": []}, {"unlogged": missing})
+
+
+def unusual_spelling(key):
+    """trailing separator or a final `.` component"""
+    k = key.rstrip("/")
+    return key.endswith("/") or k == "." or k.endswith("/.")
+
+
+def error_kinds(case, results):
+    """answers of the deployments of a case at the level the property talks about.  Whether an entry that cannot be
+    deployed is refused by the guard (`rejected`) or by the file operation (`os`) is compared for ordinary keys; for
+    a manifest with a key that ends in a separator or a `.` component it hinges on which of `dirname`/`rstrip`/
+    `normpath` the guard applies to the text first — both are the packaging error the property asks for, so the
+    two are not told apart there."""
+    out = []
+    for step, r in zip(deploy_steps(case), results):
+        if r in ("rejected", "os") and any(unusual_spelling(k) for k, _ in step["entries"]):
+            r = "error"
+        out.append(r)
+    return out
 
 
 def _member_key(n):
@@ -1110,7 +1728,24 @@ def run(ctx):
                 "prefix-named sibling of the instance directory or to a directory of the instance itself, with nested "
                 "keys below) loaded with the real "
                 "Manifest.validate (or not) and deployed by the real expandPackageToDirectory; (c) copy/copyout/link "
-                "staging of a file or directory with existing same-name file/dir/link. non-trivial = the operation "
+                "staging of a file or directory with existing same-name file/dir/link; "
+                "(d) manifests in which one entry of the instance directory is reached twice: two spellings of its key "
+                "(k, k/, ./k, k//, k/., .//k, k/./, ./k/, ././k, k/./., a//b, a/./b) with a link entry first and a copy "
+                "entry onto it (sources outside the instance: sandbox outside dirs, package dirs, prefix-named siblings, "
+                "a producer directory; relative and absolute), copy onto copy, link onto copy, link into the instance "
+                "itself (near miss), an instance directory that holds the entry as a link before the deployment, and "
+                "HISTORIES of 2-3 deployments by the real code into the same instance directory with the manifest changed "
+                "in between (link -> copy in the same or another spelling, entry first / last / shuffled, conf first, new "
+                "keys only, a key nested under the old link); random manifests also get such spellings; "
+                "(e) two real StageReference(:extract) calls in two threads under a deterministic cooperative scheduler "
+                "switching only at hooked boundaries (os.chdir/os.fchdir/os.umask before+after, TarFile.extractall "
+                "before+after, every TarFile._extract_member): pairs of archives (same member names, different names, "
+                "hostile next to benign, one aimed at the other's working directory, random benign with existing content) "
+                "x schedules (sequential both orders, alternating, ALL two-preemption schedules i grants/j grants up to a "
+                "bound, random; thorough: every interleaving of the first 5 grants of each stager for three pairs), process "
+                "cwd = a neutral directory inside the sandbox; "
+                "(f) a third of all single cases run with the process cwd inside the sandbox; a sample of the cases is run "
+                "again at the end in reverse order and must answer identically. non-trivial = the operation "
                 "reached the code under test (reference exists); distinct by canonical JSON of the case. Every case: "
                 "full recursive listing (kind, link text, size, sha1, mtime, mode) of the sandbox before/after.")
     ctx.assumptions = [
@@ -1124,10 +1759,21 @@ def run(ctx):
         "copy-instead-of-link fallback is not modelled)",
         "link chains (depth <= 4 plus random members) stay far below the kernel limit of 40 / the model fuel of 96 steps",
         "manifest sources: directories holding one file `f`, one regular file, or missing (link only)",
+        "two stagings at the same time: threads are switched only at the hooked boundaries (a change of process-global "
+        "state that goes through another call than os.chdir/os.fchdir/os.umask, or extraction not through tarfile, is "
+        "not a switching point); a stager that does not reach a boundary within 0.5 s (0.05 s once stagers have been "
+        "seen waiting for each other) is taken to wait for the other one and left running",
+        "deployment answers `rejected` (guard) and `os` (file operation) are not told apart for a manifest with a key "
+        "ending in a separator or a `.` component (both are the packaging error the property asks for)",
+        "offending manifest = a copy entry aimed at an entry that is at that moment a link leading outside the instance "
+        "directory (by construction of the generator); it must be answered with an error",
     ]
     ctx.trusted.append("C18: tarfile.extractall (fully_trusted filter of Python 3.12), shutil.copytree/copy/copyfile, "
                        "os.symlink/os.link/os.makedirs, os.path.realpath path semantics as modelled in Model/Confine.lean "
                        "(resolve/descend/walk); exercised by the tree comparison on every case")
+    ctx.trusted.append("C18: harness scheduler/hooks for two stagers (Sched, Hooks in harness/c18.py): one grant = one "
+                       "boundary-to-boundary run of one thread; the realised order of member extractions is what the "
+                       "Stagers model is run with")
     ctx.trusted.append("C18: stub WorkflowGraph/root storage resolving direct references `data/...` (Job.stageIn's "
                        "dispatch over references is not driven, only the StageReference it calls)")
     rng = ctx.rng
@@ -1137,11 +1783,17 @@ def run(ctx):
     ctx.shrinker = shrinker_factory(sb)
     try:
         cases = [dict(c) for c in CORPUS]
-        n_ex, n_dep, n_cl = (500, 350, 80) if quick else (6000, 4000, 400)
+        n_ex, n_dep, n_cl = (500, 380, 80) if quick else (5500, 4000, 400)
         cases += [gen_extract_case(rng) for _ in range(n_ex)]
         cases += [gen_deploy_case(rng) for _ in range(n_dep)]
         cases += [gen_copylink_case(rng) for _ in range(n_cl)]
-        run_cases(ctx, sb, cases)
+        for c in cases:
+            if c["op"] != "concurrent" and not c["class"].startswith("corpus:") and rng.random() < 0.33:
+                c["cwd"] = True
+        memo = []
+        run_cases(ctx, sb, cases, memo=memo)
+        run_cases(ctx, sb, gen_concurrent_cases(rng, quick, sb))
+        rerun_sample(ctx, sb, rng, memo, 60 if quick else 600)
         ctx.extra["link_chain_family"] = {
             "generated_chain_archives": sum(v for k, v in ctx.tags.items() if k.startswith("class:chain:")),
             "members_placed_through_link_members": ctx.tags.get("family:member-placed-through-link-member", 0),
@@ -1150,6 +1802,29 @@ def run(ctx):
         }
     finally:
         shutil.rmtree(base, ignore_errors=True)
+
+
+def rerun_sample(ctx, sb, rng, memo, n):
+    """family `state shared between independent operations`: a sample of the cases is run AGAIN at the end of the
+    run — after every other case, after the concurrent stagings, in another order — and the real code must answer
+    exactly as it did the first time (same answers, same resulting tree)"""
+    if not memo:
+        return
+    sample = rng.sample(memo, min(n, len(memo)))
+    sample.reverse()
+    for case, first in sample:
+        if case["op"] == "deploy":
+            res, _b, after = impl_deploy(sb, case)
+            second = {"result": res, "results": list(sb.results), "tree": tree_of(sb, after)}
+        else:
+            res, _b, after = impl_stage(sb, case)
+            second = {"result": res, "results": None, "tree": tree_of(sb, after)}
+        ctx.tag("rerun:" + case["op"])
+        if common.canon(first) != common.canon(second):
+            ctx.fail("result-depends-on-earlier-cases", strip_case(case),
+                     {"first": {"result": first["result"], "results": first["results"]},
+                      "again": {"result": second["result"], "results": second["results"]},
+                      "tree_differs": first["tree"] != second["tree"]})
 
 
 def replay(ctx, doc):
